@@ -976,7 +976,8 @@ class HistogramBase(abc.ABC):
             except ValueError as v:
                 raise TypeError(str(v)) from v
             self.frequencies = self.frequencies * scalar
-            self.errors2 = self.errors2 * scalar**2
+            # Not `scalar**2`: the square of a numpy integer scalar wraps around in its own type
+            self.errors2 = self.errors2 * scalar * scalar
             self._missed = self._missed * scalar
             if hasattr(self, "_stats"):
                 self._stats = self._stats * scalar
@@ -1006,7 +1007,8 @@ class HistogramBase(abc.ABC):
         elif np.isscalar(other):
             self._coerce_dtype(np.float64)
             self.frequencies = self.frequencies / other
-            self.errors2 = self.errors2 / other**2
+            # Not `other**2`: the square of a numpy integer scalar wraps around in its own type
+            self.errors2 = self.errors2 / other / other
             self._missed /= other
             if hasattr(self, "_stats"):
                 self._stats *= 1 / other
